@@ -279,6 +279,18 @@ def cases(rng, tier):
 
 # ---- the resolution as the two file responses apply it -------------------------------
 
+def _content_ranges(headers, data):
+    """the half-open ranges a 206 announces: its Content-Range header, or those of its multipart parts"""
+    single = [v for k, v in headers if k == "content-range"]
+    texts = single if single else re.findall(rb"(?im)^content-range:[ \t]*(.*?)\r?$", data)
+    out = []
+    for t in texts:
+        m = re.fullmatch(r"bytes (\d+)-(\d+)/(\d+)", t if isinstance(t, str) else t.decode("latin-1"))
+        if m:
+            out.append((int(m.group(1)), int(m.group(2)) + 1))
+    return out
+
+
 def _status_through(side, header, size):
     """status of a FileResponse over a file of `size` bytes asked with `Range: header` on one interface"""
     import asyncio
@@ -294,12 +306,12 @@ def _status_through(side, header, size):
             from baize.wsgi.responses import FileResponse
             got = {}
             env = {"REQUEST_METHOD": "GET", "HTTP_RANGE": header, "wsgi.input": None}
-            body = FileResponse(path)(env, lambda st, hd, exc_info=None: got.update(status=st))
-            for _ in body:
-                pass
+            body = FileResponse(path)(env, lambda st, hd, exc_info=None: got.update(status=st, headers=hd))
+            data = b"".join(body)
             if hasattr(body, "close"):
                 body.close()
-            return int(got["status"].split(" ")[0])
+            return int(got["status"].split(" ")[0]), _content_ranges(
+                [(k.lower(), v) for k, v in got["headers"]], data)
         from baize.asgi.responses import FileResponse
         msgs = []
 
@@ -315,7 +327,10 @@ def _status_through(side, header, size):
             loop.run_until_complete(FileResponse(path)(scope, receive, send))
         finally:
             loop.close()
-        return [m["status"] for m in msgs if m["type"] == "http.response.start"][0]
+        start = [m for m in msgs if m["type"] == "http.response.start"][0]
+        data = b"".join(m.get("body", b"") for m in msgs if m["type"] == "http.response.body")
+        return start["status"], _content_ranges(
+            [(k.decode("latin-1").lower(), v.decode("latin-1")) for k, v in start["headers"]], data)
     finally:
         import shutil
         shutil.rmtree(d, ignore_errors=True)
@@ -326,24 +341,29 @@ def extra(rng, tier):
     every file size (the empty file and the empty header value included); an accepted one is answered 200 / 206"""
     headers = ["", "bytes=", "hello", "bytes", "items=0-1", "bytes=0-0", "bytes=-1", "bytes=-0", "bytes=0-", "bytes=3-",
                "bytes=5-3", "bytes=0-0,2-2", "bytes=9-", "bytes=10-", "bytes=-5", "bytes=a-b", "bytes=0-0,-0", " ",
-               "bytes=0-4,6-9"]
+               "bytes=0-4,6-9", "bytes=0-1,4-5,8-9", "bytes=8-9,0-1", "bytes=2-5,4-7", "bytes=-2,0-0"]
     violations, n, stats = [], 0, {}
     for size in (0, 1, 5, 10):
         for h in headers:
             try:
-                FileResponseMixin.parse_range(h, size)
+                resolved = list(FileResponseMixin.parse_range(h, size))
                 want = None
             except Exception as exc:  # noqa
                 want = getattr(exc, "status_code", None)
             for side in ("wsgi", "asgi"):
                 n += 1
+                announced = None
                 try:
-                    got = _status_through(side, h, size)
+                    got, announced = _status_through(side, h, size)
                 except Exception as exc:  # noqa
                     got = "raised %s" % exc_name(exc)
                 key = "%s/%s" % (side, got)
                 stats[key] = stats.get(key, 0) + 1
                 ok = (got == want) if want is not None else got in (200, 206)
+                if ok and got == 206 and announced != resolved:
+                    violations.append({"line": "through_%s %s %d" % (side, enc(h), size), "out": "206 %s" % announced,
+                                       "why": "range resolution of %r on %d bytes gives %s, the %s FileResponse serves %s" % (
+                                           h, size, resolved, side.upper(), announced)})
                 if not ok:
                     violations.append({"line": "through_%s %s %d" % (side, enc(h), size), "out": str(got),
                                        "why": "range resolution of %r on %d bytes %s, the %s FileResponse answered %s" % (
